@@ -635,8 +635,13 @@ def _open_roles(ctx: Context):
         def le64len2(x):  # the same bytes through a precompiled Struct("<Q").pack
             return ("call", ("const", StructMethod(StructConst(SPEC.MAC_LENGTH_STRUCT), "pack")), (("call", ("glob", "len"), (x,), ()),), ())
 
-        want = ("add", (aad, pad(aad), ct, pad(ct), le64len(aad), le64len(ct)))
-        want2 = ("add", (aad, pad(aad), ct, pad(ct), le64len2(aad), le64len2(ct)))
+        # in the engine's one spelling: packs side by side are one pack of all the fields (Struct("<QQ").pack(len, len))
+        from ..engine.terms import _binop
+
+        want = aad
+        for part in (pad(aad), ct, pad(ct), le64len2(aad), le64len2(ct)):
+            want = _binop("Add", want, part)
+        want2 = ("add", (aad, pad(aad), ct, pad(ct), le64len(aad), le64len(ct)))
         ok = aad[0] == "param" and aad not in (comb, nonce) and mac in (want, want2)
         _judge(ck, "C18.T2", ok, [mac], "open: MAC input = aad | pad16 | ciphertext | pad16 | LE64(len aad) | LE64(len ciphertext), ciphertext = combined[:-4]",
                f"{fk}:mac-input", f"open: the MAC input is {show(mac, 300)}; RFC 7539 2.8 wants aad, pad, ciphertext (= combined text "
